@@ -129,6 +129,24 @@ func Gen(seed uint64, focus string) *Scenario {
 	if focus == "C12" || r.Chance(1, 6) {
 		sc.CloseAfter = r.Range(0, total)
 	}
+	if focus != "C12" && r.Chance(1, 7) {
+		// a slow reader on one partition gets unsubscribed from the broker worker (two expiry ticks) while the worker,
+		// still fetching for the other partition on the same broker, loses its connection
+		sc.Brokers, sc.Partitions = 1, 2
+		sc.LogLen = []int{r.Range(8, 16), r.Range(8, 16)}
+		sc.StartKind, sc.Start = []string{"oldest", "oldest"}, []int64{0, 0}
+		sc.MaxRecs = r.Range(2, 3)
+		sc.ChanBuf = r.Pick(0, 0, 1)
+		sc.ProcMs = r.Pick(2, 3)
+		sc.Appends = 0
+		sc.CloseAfter = -1
+		sc.MoveAt = 0
+		sc.SlowAt = map[int]int{r.Range(1, 5): r.Pick(25, 40, 60)}
+		sc.Faults = map[int]sarama.VerifSimFetchFault{}
+		for _, at := range []int{r.Range(3, 6), r.Range(5, 9)} {
+			sc.Faults[at] = sarama.VerifSimFetchFault{Kind: []string{"drop", "drop", "noReply"}[r.Intn(3)]}
+		}
+	}
 	return sc
 }
 
@@ -357,7 +375,7 @@ func Check(res *Result) []Fail {
 	}
 	if res.CloseHang {
 		add("C12:consumer-close-hang", "closing the partition consumers / consumer did not complete within 8s")
-		return fails
+		// what was delivered before the close is still judged below (a stalled partition usually cannot be closed either)
 	}
 	if res.Panic != "" {
 		add("C12:consumer-close-panic", "%s", res.Panic)
